@@ -697,6 +697,20 @@ fn stmt_expr_variants(s: &Stmt) -> Vec<Stmt> {
                 }
             }
         }
+        Stmt::AddAssign(v, e) => {
+            out.push(Stmt::Assign(*v, e.clone()));
+            out.extend(expr_variants(e).into_iter().map(|x| Stmt::AddAssign(*v, x)));
+        }
+        Stmt::ChainAssign(v, e) => {
+            out.push(Stmt::Assign(*v, e.clone()));
+            out.extend(expr_variants(e).into_iter().map(|x| Stmt::ChainAssign(*v, x)));
+        }
+        Stmt::MatchAssign(v, e, e2) => {
+            out.push(Stmt::Assign(*v, e.clone()));
+            out.push(Stmt::Assign(*v, e2.clone()));
+            out.extend(expr_variants(e).into_iter().map(|x| Stmt::MatchAssign(*v, x, e2.clone())));
+            out.extend(expr_variants(e2).into_iter().map(|x| Stmt::MatchAssign(*v, e.clone(), x)));
+        }
         Stmt::AssignLambdaCall(v, func, arg, site) => {
             out.push(Stmt::Assign(
                 *v,
@@ -887,7 +901,10 @@ fn calls_func(b: &Block, func: usize) -> bool {
             | Stmt::MapSet(_, e)
             | Stmt::Print(e)
             | Stmt::Return(e)
+            | Stmt::AddAssign(_, e)
+            | Stmt::ChainAssign(_, e)
             | Stmt::Expr(e) => in_expr(e, func),
+            Stmt::MatchAssign(_, e, e2) => in_expr(e, func) || in_expr(e2, func),
             Stmt::AssignLambdaCall(_, f2, e, _) => *f2 == func || in_expr(e, func),
             Stmt::AssignList(es) => es.iter().any(|e| in_expr(e, func)),
             Stmt::AssignStr(ps) => ps.iter().any(|p| matches!(p, StrPart::Int(e) if in_expr(e, func))),
